@@ -103,13 +103,26 @@ impl Evaluator {
         let (eval_send, eval_recv) = self.eval_channel;
         // Disconnect the sender, breaking the loop in the thread
         drop(eval_send);
+        #[cfg(feature = "verif")]
+        if let Some(tap) = crate::verif::tap() {
+            tap.proto(self.verif_id, crate::verif::ProtoEvent::DropSender);
+        }
         let nth = self.nth.load(SeqCst);
         // Yield to ensure all evaluations are executed
         // This can prevent deadlocks when run within an existing rayon thread pool
         while self.executed.load(Relaxed) < nth {
             rayon::yield_local();
         }
-        eval_recv.into_iter().min_by_key(Candidate::cmp_key)
+        #[cfg(feature = "verif")]
+        if let Some(tap) = crate::verif::tap() {
+            tap.proto(self.verif_id, crate::verif::ProtoEvent::SpinExit);
+        }
+        let best = eval_recv.into_iter().min_by_key(Candidate::cmp_key);
+        #[cfg(feature = "verif")]
+        if let Some(tap) = crate::verif::tap() {
+            tap.proto(self.verif_id, crate::verif::ProtoEvent::Done);
+        }
+        best
     }
 
     #[cfg(not(feature = "parallel"))]
@@ -140,6 +153,7 @@ impl Evaluator {
         #[cfg(feature = "verif")]
         if let Some(tap) = crate::verif::tap() {
             tap.candidate(verif_id, nth, description, &image);
+            tap.proto(verif_id, crate::verif::ProtoEvent::Submit(nth));
         }
         // These clones are only cheap refcounts
         let deadline = self.deadline.clone();
@@ -155,6 +169,10 @@ impl Evaluator {
         #[cfg(feature = "parallel")]
         let eval_send = self.eval_channel.0.clone();
         rayon::spawn(move || {
+            #[cfg(feature = "verif")]
+            if let Some(tap) = crate::verif::tap() {
+                tap.proto(verif_id, crate::verif::ProtoEvent::TaskStart(nth));
+            }
             executed.fetch_add(1, Relaxed);
             let filters_iter = filters.par_iter().with_max_len(1);
 
@@ -227,6 +245,10 @@ impl Evaluator {
                     );
                 }
             });
+            #[cfg(feature = "verif")]
+            if let Some(tap) = crate::verif::tap() {
+                tap.proto(verif_id, crate::verif::ProtoEvent::TaskEnd(nth));
+            }
         });
     }
 }
